@@ -38,6 +38,9 @@ def parse_query(src: str) -> ast.AST:
         def visit_Name(self, n):
             if n.id == "ds":
                 return ast.Call(func=ast.Name("EventDataset", ast.Load()), args=[], keywords=[])
+            if n.id == "NEGZERO":
+                # no Python literal denotes the constant -0.0 ("-0.0" is a unary minus): a captured variable does
+                return ast.Constant(-0.0)
             return n
 
         def visit_Call(self, n):
